@@ -30,7 +30,10 @@ var typeStrs = map[int]string{
 }
 
 func encodeObjTypeAndLen(buf encoding.Bufferer, objType int, u uint64) []byte {
-	bits := int(math.Floor(math.Log2(float64(u)) + 1))
+	bits := 1
+	if u > 0 {
+		bits = int(math.Floor(math.Log2(float64(u)) + 1))
+	}
 	numBytes := (bits-4)/7 + 1
 	if (bits-4)%7 > 0 {
 		numBytes += 1
